@@ -14,10 +14,9 @@ META = {
             "ACLs allows it (explicit allow of the first rule whose literals all hold; otherwise the reverse of the last "
             "rule; 'deny all' when there is no rule), and otherwise it is answered 403 and not forwarded; the decision of "
             "the C44 checklist machine on the same tree, with every leaf free to suspend for any number of asynchronous "
-            "lookups, is the same. The statement is proved for method ACL values that are not proper prefixes of a "
-            "registered method name (_partial) and REFUTED at full strength: 'acl m method GE' is read as GET "
-            "(HttpRequestMethodXXX compares only strlen(token) bytes), so 'http_access deny m' lets the method GE through "
-            "and denies GET - known finding C45-method-acl-prefix, replayed against the binary on every run. Tie: method "
+            "lookups, is the same. Method values of acl lines are read exactly as request methods are (theorem; the former "
+            "defect 'acl m method GE' = GET, HttpRequestMethodXXX comparing only strlen(value) bytes, was repaired by /repo "
+            "ae7c270 and its witnesses GE/get/g/p are regression scenarios replayed against the binary on every run). Tie: method "
             "table regenerated; extracted model diffed against the real squid binary started once per generated "
             "configuration (hosts_file, three origins, clients bound to different 127/8 source addresses, named and "
             "numeric URL hosts incl. one without reverse DNS, which makes dstdomain go asynchronous).",
@@ -25,8 +24,7 @@ META = {
             "exactly this path for every request (and forwards what clientAccessCheckDone lets pass) rests on the end-to-end "
             "correspondence. Hypotheses of the main theorem (line_ok / req_ok): IP values are IPv4 without bits below the "
             "mask and with prefix length 1..32 (C42's side conditions; Squid itself warns about the others; they are still "
-            "exercised by the correspondence run), tokens non-empty and free of NUL/white space, method values not proper "
-            "prefixes of registered names, addresses 32-bit, ports 0..65535. Inputs of the model that are not modelled: the "
+            "exercised by the correspondence run), tokens non-empty and free of NUL/white space, addresses 32-bit, ports 0..65535. Inputs of the model that are not modelled: the "
             "text->address conversion of IP values (sscanf/getaddrinfo in FactoryParse), hosts_file parsing (static "
             "ipcache/fqdncache entries), URL parsing; a failed reverse lookup is its result 'none'. In the C44 composition "
             "theorem every literal occurrence is its own scripted leaf (so it may suspend independently). Trusted: Coq "
@@ -46,7 +44,8 @@ REV = {ip: names[0] for ip, names in HOSTS}
 CLIENTS = ["127.0.0.1", "127.0.0.2", "127.0.0.3", "127.0.0.9", "127.0.1.5", "127.3.2.1"]
 NUMERIC_HOSTS = ["127.0.0.1", "127.0.0.6", "127.0.1.6", "127.2.0.1", "127.0.0.77"]
 NAMED_HOSTS = sorted(FWD)
-REQ_METHODS = ["GET", "GET", "GET", "HEAD", "POST", "PUT", "DELETE", "OPTIONS", "VERIFY", "Verify", "PATCH", "get"]
+REQ_METHODS = ["GET", "GET", "GET", "GET", "HEAD", "HEAD", "POST", "POST", "PUT", "DELETE", "OPTIONS", "VERIFY", "Verify",
+               "PATCH", "get", "GE", "PROP"]
 BODY_METHODS = ("POST", "PUT")
 
 IP_VALUES = [["single", "127.0.0.1"], ["single", "127.0.0.2"], ["single", "127.0.0.3"], ["single", "127.0.0.6"],
@@ -67,13 +66,8 @@ DOM_VALUES = [".verif.test", "a.verif.test", ".b.verif.test", "b.verif.test", "w
 PORT_VALUES = ["{p0}", "{p1}", "{p2}", "{p0}-{p1}", "{p1}-{p2}", "1-{p0-1}", "{p2+1}-65535", "{p0+1}-{p1-1}", "1-65535", "80",
                "{p0}-{p0}", "0-{p1}"]
 METH_VALUES = ["GET", "get", "Get", "HEAD", "POST", "post", "PUT", "DELETE", "OPTIONS", "options", "VERIFY", "Verify", "PATCH",
-               "CONNECT", "PROPFIND"]
+               "CONNECT", "PROPFIND", "GET", "HEAD", "POST", "GE", "g", "p", "PROP", "MK"]     # the last five: prefixes of method names
 TYPES = ["src", "dst", "dom", "port", "meth"]
-# the registered method names (used only to CLASSIFY a failure as the known prefix defect, never to decide)
-SQUID_METHODS = ["GET", "POST", "PUT", "HEAD", "CONNECT", "TRACE", "OPTIONS", "DELETE", "LINK", "UNLINK", "CHECKOUT", "CHECKIN",
-                 "UNCHECKOUT", "MKWORKSPACE", "VERSION-CONTROL", "REPORT", "UPDATE", "LABEL", "MERGE", "BASELINE-CONTROL",
-                 "MKACTIVITY", "PROPFIND", "PROPPATCH", "MKCOL", "COPY", "MOVE", "LOCK", "UNLOCK", "SEARCH", "PRI", "PURGE"]
-
 
 def gen_config(rng, quirk=False):
     names = ["a%d" % i for i in range(rng.randrange(2, 7))]
@@ -393,18 +387,13 @@ def _port_in(p, tok):
 STD = ("GET", "HEAD", "POST", "PUT", "DELETE", "OPTIONS", "CONNECT", "PROPFIND")
 
 
-def _meth_same(tok, m, prefix_quirk=False):
-    if prefix_quirk:
-        for full in SQUID_METHODS:
-            if full.lower().startswith(tok.lower()):
-                tok = full
-                break
+def _meth_same(tok, m):
     if tok.upper() in STD or m.upper() in STD:
         return tok.upper() == m.upper()                      # standard method names: case is corrected by the proxy
     return tok == m                                          # extension methods are case-sensitive tokens
 
 
-def reference(s, r, ports, prefix_quirk=False):
+def reference(s, r, ports):
     """True = the reference first-match evaluation allows request r under the access section of s"""
     defs = {"all": ("src", [["word", "all"]])}
     for l in s["lines"]:
@@ -425,7 +414,7 @@ def reference(s, r, ports, prefix_quirk=False):
             return any(_dom_in(n, t) for n in names for t in toks)
         if ty == "port":
             return any(_port_in(ports[r["p"]], subst(t, ports)) for t in toks)
-        return any(_meth_same(t, r["m"], prefix_quirk) for t in toks)
+        return any(_meth_same(t, r["m"]) for t in toks)
 
     rules = [(l["allow"], l["terms"]) for l in s["lines"] if l["k"] == "access" and l["terms"]]
     if not rules:
@@ -434,15 +423,6 @@ def reference(s, r, ports, prefix_quirk=False):
         if all(holds(nm) != neg for neg, nm in terms):
             return allow
     return not rules[-1][0]
-
-
-def _has_prefix_token(s):
-    for l in s["lines"]:
-        if l["k"] == "acl" and l["type"] == "meth":
-            for t in l["toks"]:
-                if any(f.lower().startswith(t.lower()) and len(f) > len(t) for f in SQUID_METHODS):
-                    return True
-    return False
 
 
 def split_obs(obs):
@@ -470,11 +450,6 @@ def oracle(s, obs):
         want = reference(s, r, ports)
         if (o == "F") == want and o in ("F", "D"):
             continue
-        if _has_prefix_token(s) and o in ("F", "D") and (o == "F") == reference(s, r, ports, prefix_quirk=True):
-            return ("oracle:method-acl-prefix-token",
-                    "request #%d %s: reference %s, squid %s; explained by a method ACL value that is a proper prefix of a "
-                    "registered method name being read as that method" % (i, json.dumps(r), "allows" if want else "denies",
-                                                                          "forwarded" if o == "F" else "denied"))
         if o == "F":
             return ("oracle:denied-but-forwarded", "request #%d %s is denied by the reference first-match evaluation but reached the origin" % (i, json.dumps(r)))
         if o == "D":
